@@ -67,6 +67,27 @@ NOT_APPLICABLE.update({
     "C17": "function contracts constrain one call in one thread; DFCC has no interleaving semantics (DESIGN.md 4/C17)",
 })
 _load_defs()
+
+
+def _apply_quick_excludes():
+    """contracts/quick_exclude.txt: lines "<PID> <unit>": the unit stays in <PID>'s thorough tier but is left
+    out of its QUICK tier (used for expensive units that serve a second property, mainly C01, so that the
+    quick check of that property stays within its time budget; the unit still runs in the quick tier of its
+    primary property)."""
+    here = os.path.dirname(os.path.abspath(__file__))
+    p = os.path.join(here, "quick_exclude.txt")
+    if not os.path.exists(p):
+        return
+    ex = {}
+    for line in open(p):
+        line = line.split("#")[0].split()
+        if len(line) == 2:
+            ex.setdefault(line[1], set()).add(line[0])
+    for u in _UNITS:
+        u.not_quick_for = ex.get(u.name, set())
+
+
+_apply_quick_excludes()
 for _p in ["C%02d" % i for i in range(1, 21)]:
     if _p not in PROPS:
         NOT_APPLICABLE.setdefault(_p, "units for this property are not built yet in this revision of /verif (planned in DESIGN.md section 4); not claimed until they are")
